@@ -292,6 +292,14 @@ static void step_tick(void)
 		s->abort = 1;
 		s->step_capped = 1;
 	}
+	/* After the cap every blocking call fails fast, so a well-behaved task unwinds within a few steps.
+	 * One that keeps yielding (e.g. a retry loop around an entropy source that never delivers) does not
+	 * terminate: report it like a CPU hang instead of spinning forever. */
+	if (s->step > s->step_cap + s->step_cap / 2 + 100000) {
+		fprintf(g_out, "HANG kind=livelock step=%llu task=%d phase=%s\n", (unsigned long long)s->step, s->cur, "yielding without end");
+		fflush(g_out);
+		_exit(98);
+	}
 }
 
 Task *sim_cur(void) { return g_sim.cur >= 0 ? &g_sim.tasks[g_sim.cur] : NULL; }
